@@ -129,36 +129,76 @@ Qed.
 Lemma ypr_encode_app a b : ypr_encode (a ++ b) = ypr_encode a ++ ypr_encode b.
 Proof. apply flat_map_app. Qed.
 
-(* the double-quoted text between the quotes *)
-Fixpoint body_dq (ind : bytes) (s : bytes) : bytes :=
+(* the double-quoted text between the quotes. [p]: the byte before is a blank of the same line (nl[-1]);
+   [sl]: LYS_YPR_TEXT_SINGLELINE *)
+Definition cont_indent (ind s : bytes) : bytes := match s with 10 :: _ => [] | _ => ind ++ [32] end.
+Fixpoint body_dq (sl : bool) (ind : bytes) (p : bool) (s : bytes) : bytes :=
   match s with
   | [] => []
   | c :: s' =>
-      if c =? 10 then [10] ++ (match s' with 10 :: _ => [] | _ => ind ++ [32] end) ++ body_dq ind s'
-      else esc_byte c ++ body_dq ind s'
+      if c =? 10 then
+        if p || (sl && head_blank s') then [92; 110] ++ body_dq sl ind false s'
+        else [10] ++ cont_indent ind s' ++ body_dq sl ind false s'
+      else esc_byte c ++ body_dq sl ind (c =? 32) s'
   end.
 
-Lemma text_lines_dq ind s : forall cur,
-  text_lines ypr_encode ind s cur = ypr_encode (rev cur) ++ body_dq ind s.
+Lemma head_blank_cons c t : head_blank (c :: t) = (c =? 32).
+Proof.
+  destruct (N.eqb_spec c 32) as [->|H]; [reflexivity|].
+  destruct c as [|q]; [reflexivity|].
+  repeat (destruct q as [q|q|]; try reflexivity). congruence.
+Qed.
+Lemma head_blank_starts s : head_blank s = false -> ~ starts 32 s.
+Proof. intros H [t ->]. discriminate H. Qed.
+
+Lemma text_lines_dq sl ind s : forall cur,
+  text_lines ypr_encode ind true sl s cur = ypr_encode (rev cur) ++ body_dq sl ind (head_blank cur) s.
 Proof.
   induction s as [|c s IH]; intro cur; cbn [text_lines body_dq].
   - rewrite app_nil_r. reflexivity.
   - destruct (c =? 10).
-    + rewrite (IH []). cbn [rev ypr_encode flat_map app]. reflexivity.
+    + cbn [andb]. destruct (head_blank cur || (sl && head_blank s)); rewrite (IH []); reflexivity.
     + rewrite (IH (c :: cur)). cbn [rev]. rewrite ypr_encode_app. cbn [ypr_encode flat_map].
-      rewrite app_nil_r, <- app_assoc. reflexivity.
+      rewrite app_nil_r, <- app_assoc, head_blank_cons. reflexivity.
 Qed.
 
-Lemma body_dq_plain ind ch s :
-  Forall (fun b => b <> 9 /\ b <> 10 /\ b <> 34 /\ b <> 92) ch -> body_dq ind (ch ++ s) = ch ++ body_dq ind s.
+Lemma body_dq_nl_esc sl ind p s :
+  p || (sl && head_blank s) = true -> body_dq sl ind p (10 :: s) = 92 :: 110 :: body_dq sl ind false s.
+Proof. intro H. cbn [body_dq]. change (10 =? 10) with true. cbn iota. rewrite H. reflexivity. Qed.
+Lemma body_dq_nl_real sl ind p s :
+  p || (sl && head_blank s) = false ->
+  body_dq sl ind p (10 :: s) = 10 :: cont_indent ind s ++ body_dq sl ind false s.
+Proof. intro H. cbn [body_dq]. change (10 =? 10) with true. cbn iota. rewrite H. reflexivity. Qed.
+Lemma body_dq_other sl ind p a s :
+  a <> 10 -> body_dq sl ind p (a :: s) = esc_byte a ++ body_dq sl ind (a =? 32) s.
+Proof. intro H. apply N.eqb_neq in H. cbn [body_dq]. rewrite H. reflexivity. Qed.
+
+Lemma cont_indent_other n x s : x <> 10 -> cont_indent (repeat 32 n) (x :: s) = repeat 32 (n + 1).
 Proof.
-  induction 1 as [|b ch (H9 & H10 & H34 & H92) _ IH]; [reflexivity|].
-  cbn [app body_dq]. apply N.eqb_neq in H10 as E. rewrite E, IH, esc_byte_plain by assumption. reflexivity.
+  intro H. rewrite repeat_app. cbn [repeat]. unfold cont_indent.
+  destruct x as [|q]; [reflexivity|].
+  repeat (destruct q as [q|q|]; try reflexivity). congruence.
 Qed.
+Lemma cont_indent_nil n : cont_indent (repeat 32 n) [] = repeat 32 (n + 1).
+Proof. rewrite repeat_app. reflexivity. Qed.
+
+Definition dqcopy (b : N) : Prop := b <> 9 /\ b <> 10 /\ b <> 32 /\ b <> 34 /\ b <> 92.
+
+Lemma body_dq_plain sl ind ch s :
+  Forall dqcopy ch -> forall p,
+  body_dq sl ind p (ch ++ s) = ch ++ body_dq sl ind (match ch with [] => p | _ => false end) s.
+Proof.
+  induction 1 as [|b ch (H9 & H10 & H32 & H34 & H92) _ IH]; intro p; [reflexivity|].
+  cbn [app]. rewrite body_dq_other, IH, esc_byte_plain by assumption.
+  apply N.eqb_neq in H32. rewrite H32. destruct ch; reflexivity.
+Qed.
+Lemma body_dq_plain1 sl ind ch s p :
+  Forall dqcopy ch -> ch <> [] -> body_dq sl ind p (ch ++ s) = ch ++ body_dq sl ind false s.
+Proof. intros H Hne. rewrite body_dq_plain by exact H. destruct ch; [congruence|reflexivity]. Qed.
 
 (* without a newline there is one line *)
-Lemma text_lines_one enc ind s : forall cur,
-  no_byte 10 s = true -> text_lines enc ind s cur = enc (rev cur ++ s).
+Lemma text_lines_one enc ind dq sl s : forall cur,
+  no_byte 10 s = true -> text_lines enc ind dq sl s cur = enc (rev cur ++ s).
 Proof.
   induction s as [|c s IH]; intros cur H; cbn [text_lines].
   - rewrite app_nil_r. reflexivity.
@@ -264,129 +304,141 @@ Proof. rewrite rev_append_rev, rev_app_distr, rev_involutive, <- app_assoc. refl
 (* ====================================================================================== *)
 
 (* [n] blanks of INDENT, so continuation lines start with n + 1 blanks; the opening quote stands at a
-   column with bi = block_indent >= n + 1. Equality holds for the multi-line layout; for the
-   single-line layout (bi > n + 1) the lexer eats leading blanks of continuation lines, hence the
-   hypothesis no_pair 10 32. *)
+   column with bi = block_indent >= n + 1. Equality holds for the multi-line layout; in the single-line
+   layout (bi > n + 1) the lexer would eat leading blanks of a continuation line, but then the printer
+   ([sl] = true) has escaped the newline. Invariants of the lexer state along the printed text:
+   trailing_ws is 0 unless the byte before is a blank ([p]); current_indent has reached block_indent
+   unless the next byte is not a blank. *)
 Ltac slim := repeat match goal with
   | H : context[lex_f] |- _ => clear H
   | H : _ = true |- _ => clear H
+  | H : _ = false |- _ => clear H
   | H : _ \/ _ |- _ => clear H
   | H : _ -> _ |- _ => clear H
   | H : ychars _ |- _ => clear H
   | H : store_ok _ |- _ => clear H
   end.
 Ltac slia := slim; lia.
-Lemma dq_text_roundtrip bi n c r :
-  N.of_nat n + 1 <= bi -> is_term c = true ->
+Lemma dq_text_roundtrip sl bi n c r :
+  N.of_nat n + 1 <= bi -> is_term c = true -> (N.of_nat n + 1 = bi \/ sl = true) ->
   forall s, ychars s ->
-    no_byte 13 s = true -> no_pair 32 10 s = true ->
-    (N.of_nat n + 1 = bi \/ no_pair 10 32 s = true) ->
-    forall f acc tw ci,
-      (tw <> O -> ~ starts 10 s) ->
+    no_byte 13 s = true ->
+    forall f acc tw ci p,
+      (p = false -> tw = O) ->
       (ci = bi \/ ~ starts 32 s) ->
-      Nat.lt (length (body_dq (repeat 32 n) s ++ 34 :: c :: r)) f ->
-      lex_f f QS_DQ bi ci tw (body_dq (repeat 32 n) s ++ 34 :: c :: r) acc = Ok (rev acc ++ s, c :: r).
+      Nat.lt (length (body_dq sl (repeat 32 n) p s ++ 34 :: c :: r)) f ->
+      lex_f f QS_DQ bi ci tw (body_dq sl (repeat 32 n) p s ++ 34 :: c :: r) acc = Ok (rev acc ++ s, c :: r).
 Proof.
-  intros Hbi Hc s Hs.
-  induction Hs as [|ch s Hch Hs IH]; intros H13 Hsn Hns f acc tw ci Htw Hci Hlen.
+  intros Hbi Hc Hlay s Hs.
+  induction Hs as [|ch s Hch Hs IH]; intros H13 f acc tw ci p Htw Hci Hlen.
   - cbn [body_dq app] in *. cbn [length] in Hlen.
     destruct f as [|[|f]]; [slia|slia|]. rewrite dq_close by exact Hc. rewrite app_nil_r. reflexivity.
   - destruct Hch as (Hok & Hne & Hshape).
-    apply no_byte_app in H13. destruct H13 as [H13c H13s].
-    pose proof (no_pair_app _ _ _ _ Hsn) as Hsn'.
-    assert (Hns' : N.of_nat n + 1 = bi \/ no_pair 10 32 s = true).
-    { destruct Hns as [E|E]; [left; exact E|right; exact (no_pair_app _ _ _ _ E)]. }
+    apply no_byte_app in H13. destruct H13 as [H13c H13s]. specialize (IH H13s).
     (* a character that the lexer takes in its default branch *)
-    assert (Hdef : dqplain (hd 0 ch) -> Forall (fun b => b <> 9 /\ b <> 10 /\ b <> 34 /\ b <> 92) ch ->
-                   lex_f f QS_DQ bi ci tw (body_dq (repeat 32 n) (ch ++ s) ++ 34 :: c :: r) acc =
+    assert (Hdef : dqplain (hd 0 ch) -> Forall dqcopy ch ->
+                   lex_f f QS_DQ bi ci tw (body_dq sl (repeat 32 n) p (ch ++ s) ++ 34 :: c :: r) acc =
                    Ok (rev acc ++ ch ++ s, c :: r)).
-    { intros Hp Hall. rewrite body_dq_plain in * by exact Hall. rewrite <- app_assoc in *.
+    { intros Hp Hall. rewrite body_dq_plain1 in * by assumption. rewrite <- app_assoc in *.
       destruct f as [|f]; [slia|]. rewrite dq_step_char by assumption.
-      rewrite IH; try assumption.
+      rewrite IH.
       - rewrite rev_rev_append. reflexivity.
-      - intro E; congruence.
+      - reflexivity.
       - left; reflexivity.
       - rewrite app_length in Hlen. destruct ch; [congruence|]. cbn [length] in Hlen. slia. }
     destruct Hshape as [Hall|[a ->]].
     { apply Hdef.
       - destruct ch as [|x ch]; [congruence|]. inversion Hall; subst. apply plain_dqplain. assumption.
-      - eapply Forall_impl; [|exact Hall]. unfold plain. intros b Hb. tauto. }
+      - eapply Forall_impl; [|exact Hall]. unfold plain, dqcopy. intros b Hb. tauto. }
     destruct (N.eq_dec a 13) as [->|N13].
     { apply no_byte_cons in H13c. destruct H13c as [E _]. congruence. }
     destruct (N.eq_dec a 10) as [->|N10].
-    { (* real newline *)
-      assert (Etw : tw = O).
-      { destruct tw; [reflexivity|]. exfalso. apply Htw; [discriminate|]. exists s. reflexivity. }
-      subst tw. clear Hdef.
-      assert (Hgoal : forall s0, rev (10 :: acc) ++ s0 = rev acc ++ [10] ++ s0).
-      { intro s0. cbn [rev app]. rewrite <- app_assoc. reflexivity. }
-      destruct f as [|f]; [rewrite app_length in Hlen; cbn [length] in Hlen; slia|].
+    { clear Hdef. cbn [app] in *.
+      assert (Hgoal : forall s0, rev (10 :: acc) ++ s0 = rev acc ++ 10 :: s0).
+      { intro s0. cbn [rev]. rewrite <- app_assoc. reflexivity. }
+      destruct (p || (sl && head_blank s)) eqn:Ep.
+      { (* a blank before the newline or, single-line layout, after it: printed as backslash n *)
+        rewrite body_dq_nl_esc in * by exact Ep. cbn [app length] in *.
+        destruct f as [|[|f]]; [slia|slia|].
+        rewrite (dq_step_esc _ _ _ _ 110 10) by (cbn; auto).
+        rewrite IH.
+        - rewrite Hgoal. reflexivity.
+        - reflexivity.
+        - left; reflexivity.
+        - slia. }
+      (* real newline *)
+      rewrite body_dq_nl_real in * by exact Ep.
+      apply orb_false_iff in Ep. destruct Ep as [Ep Esl]. subst p.
+      pose proof (Htw eq_refl) as Etw. subst tw. clear Htw.
+      assert (Hci' : N.of_nat n + 1 = bi \/ ~ starts 32 s).
+      { destruct Hlay as [E|E]; [left; exact E|]. right. subst sl. cbn [andb] in Esl.
+        exact (head_blank_starts _ Esl). }
+      cbn [app length] in *.
+      destruct f as [|f]; [slia|].
       destruct s as [|x s'].
       - (* end of the text: blanks, then the closing quote *)
-        assert (Eb : body_dq (repeat 32 n) ([10] ++ []) ++ 34 :: c :: r = 10 :: repeat 32 (n + 1) ++ 34 :: c :: r).
-        { cbn [app body_dq]. change (10 =? 10) with true. cbn iota. rewrite app_nil_r, repeat_app.
-          cbn [repeat app]. rewrite <- app_assoc. reflexivity. }
-        rewrite Eb in Hlen |- *. cbn [length] in Hlen. rewrite app_length, repeat_length in Hlen. cbn [length] in Hlen.
+        rewrite cont_indent_nil in *. cbn [body_dq] in *. rewrite app_nil_r in *.
+        rewrite app_length, repeat_length in Hlen. cbn [length] in Hlen.
         rewrite dq_step_nl by slia. cbn [skipn].
         replace f with ((n + 1) + (f - (n + 1)))%nat by slia.
         rewrite dq_eat_spaces by slia.
         remember (f - (n + 1))%nat as f' eqn:Ef. destruct f' as [|[|f']]; [slia|slia|].
-        rewrite dq_close by exact Hc. rewrite app_nil_r. cbn [rev]. reflexivity.
+        rewrite dq_close by exact Hc. cbn [rev]. reflexivity.
       - destruct (N.eq_dec x 10) as [->|Nx].
         + (* empty line: no blanks are printed *)
-          assert (Eb : body_dq (repeat 32 n) ([10] ++ 10 :: s') = 10 :: body_dq (repeat 32 n) (10 :: s')) by reflexivity.
-          rewrite Eb in Hlen |- *. cbn [app length] in Hlen |- *.
+          change (cont_indent (repeat 32 n) (10 :: s')) with (@nil N) in *. cbn [app] in *.
           rewrite dq_step_nl by slia. cbn [skipn].
-          rewrite IH; try assumption.
+          rewrite IH.
           * rewrite Hgoal. reflexivity.
-          * intro E; congruence.
+          * reflexivity.
           * right. intros [t E]. discriminate E.
           * slia.
-        + assert (Eb : body_dq (repeat 32 n) ([10] ++ x :: s') =
-                       10 :: repeat 32 (n + 1) ++ body_dq (repeat 32 n) (x :: s')).
-          { cbn [app]. cbn [body_dq]. change (10 =? 10) with true. cbn iota. rewrite repeat_app.
-            cbn [repeat app]. f_equal. f_equal.
-            destruct x as [|p]; [reflexivity|].
-            repeat (destruct p as [p|p|]; try reflexivity). congruence. }
-          rewrite Eb in Hlen |- *. cbn [app length] in Hlen |- *. rewrite <- app_assoc in Hlen |- *.
+        + rewrite cont_indent_other in * by exact Nx. rewrite <- app_assoc in *.
           rewrite app_length, repeat_length in Hlen.
           rewrite dq_step_nl by slia. cbn [skipn].
           replace f with ((n + 1) + (f - (n + 1)))%nat by slia.
           rewrite dq_eat_spaces by slia.
-          rewrite IH; try assumption.
+          rewrite IH.
           * rewrite Hgoal. reflexivity.
-          * intro E; congruence.
-          * destruct Hns as [E|E]; [left; slia|]. right. exact (no_pair_starts _ _ _ E).
+          * reflexivity.
+          * destruct Hci' as [E|E]; [left; slia|right; exact E].
           * slia. }
+    cbn [app] in *. rewrite body_dq_other in * by exact N10.
     destruct (N.eq_dec a 32) as [->|N32].
     { (* blank: stored, counted as trailing *)
       assert (Eci : ci = bi).
       { destruct Hci as [E|E]; [exact E|]. exfalso. apply E. exists s. reflexivity. }
-      subst ci. cbn [app body_dq] in *. change (32 =? 10) with false in *. cbn iota in *.
-      change (esc_byte 32) with [32] in *. cbn [app] in *.
+      subst ci. change (32 =? 32) with true in *. change (esc_byte 32) with [32] in *. cbn [app] in *.
       destruct f as [|f]; [cbn [length] in Hlen; slia|].
-      rewrite dq_step_space_store. rewrite IH; try assumption.
+      rewrite dq_step_space_store. rewrite IH.
       - cbn [rev]. rewrite <- app_assoc. reflexivity.
-      - intros _. exact (no_pair_starts _ _ _ Hsn).
+      - discriminate.
       - left; reflexivity.
       - cbn [length] in Hlen. slia. }
+    apply N.eqb_neq in N32 as E32. rewrite E32 in *.
     (* tab, double quote, backslash: two bytes, read through the escaped state *)
     assert (Hesc : forall x, In (x, a) [(110, 10); (116, 9); (34, 34); (92, 92)] -> esc_byte a = [92; x] ->
-                   lex_f f QS_DQ bi ci tw (body_dq (repeat 32 n) ([a] ++ s) ++ 34 :: c :: r) acc =
-                   Ok (rev acc ++ [a] ++ s, c :: r)).
-    { intros x Hin Ee. cbn [app body_dq] in *. apply N.eqb_neq in N10. rewrite N10 in *. rewrite Ee in *.
+                   lex_f f QS_DQ bi ci tw (esc_byte a ++ body_dq sl (repeat 32 n) false s ++ 34 :: c :: r) acc =
+                   Ok (rev acc ++ a :: s, c :: r)).
+    { intros x Hin Ee. rewrite Ee in *.
       cbn [app] in *. destruct f as [|[|f]]; [cbn [length] in Hlen; slia|cbn [length] in Hlen; slia|].
-      rewrite (dq_step_esc _ _ _ _ _ _ _ _ Hin). rewrite IH; try assumption.
+      rewrite (dq_step_esc _ _ _ _ _ _ _ _ Hin). rewrite IH.
       - cbn [rev]. rewrite <- app_assoc. reflexivity.
-      - intro E; congruence.
+      - reflexivity.
       - left; reflexivity.
       - cbn [length] in Hlen. slia. }
+    rewrite <- app_assoc in *.
     destruct (N.eq_dec a 9) as [->|N9]; [apply (Hesc 116); [cbn; auto|reflexivity]|].
     destruct (N.eq_dec a 34) as [->|N34]; [apply (Hesc 34); [cbn; auto|reflexivity]|].
     destruct (N.eq_dec a 92) as [->|N92]; [apply (Hesc 92); [cbn; auto 6|reflexivity]|].
+    clear Hesc. rewrite esc_byte_plain in * by assumption.
+    change ([a] ++ body_dq sl (repeat 32 n) false s ++ 34 :: c :: r)
+      with (([a] ++ body_dq sl (repeat 32 n) false s) ++ 34 :: c :: r) in *.
+    rewrite <- (body_dq_plain1 sl (repeat 32 n) [a] s p) in *;
+      try (constructor; [unfold dqcopy; tauto|constructor]); try discriminate.
     apply Hdef.
     + cbn [hd]. unfold dqplain. tauto.
-    + constructor; [tauto|constructor].
+    + constructor; [unfold dqcopy; tauto|constructor].
 Qed.
 
 (* ====================================================================================== *)
@@ -504,41 +556,40 @@ Qed.
 (* ypr_text() then read_qstring()                                                          *)
 (* ====================================================================================== *)
 
-(* the hypothesis the round trip needs, as a function of the layout *)
-Definition rt_hyp (single_line single_quoted : bool) (s : bytes) : bool :=
-  if single_quoted then no_byte 10 s
-  else no_byte 13 s && no_pair 32 10 s && (negb single_line || no_pair 10 32 s).
+(* the hypothesis the round trip needs: no carriage return in a double-quoted text, no newline in a
+   single-quoted one *)
+Definition rt_hyp (single_quoted : bool) (s : bytes) : bool :=
+  if single_quoted then no_byte 10 s else no_byte 13 s.
 
 Theorem text_roundtrip_dq shrink level name s sl c r :
-  no_byte 10 name = true -> ylexable s = true -> is_term c = true ->
-  no_byte 13 s = true -> no_pair 32 10 s = true -> (sl = true -> no_pair 10 32 s = true) ->
+  no_byte 10 name = true -> ylexable s = true -> is_term c = true -> no_byte 13 s = true ->
   print_then_lex shrink level name s sl false (c :: r) = Ok (s, c :: r).
 Proof.
-  intros Hname Hs Hc H13 Hsn Hns. apply ylexable_ychars in Hs.
+  intros Hname Hs Hc H13. apply ylexable_ychars in Hs.
   unfold print_then_lex, ypr_text_parts. cbn [andb negb]. rewrite andb_true_r.
   set (w0 := indent_w shrink level).
   destruct sl.
   - (* single-line layout: the quote stands after the name *)
     rewrite !col_after_app, col_after_spaces, (col_after_nonl name) by exact Hname.
     cbn [col_after]. change (32 =? 10) with false. cbn iota.
-    cbn [app]. rewrite text_lines_dq. cbn [rev ypr_encode flat_map app]. rewrite <- app_assoc. cbn [app].
+    cbn [app]. rewrite text_lines_dq. cbn [rev ypr_encode flat_map app head_blank]. rewrite <- app_assoc. cbn [app].
     unfold lex_qstring, spaces.
     match goal with |- lex_f _ _ ?b _ _ _ _ = _ => set (bi := b) end.
     assert (Hbi : N.of_nat (N.to_nat w0) + 1 <= bi) by (subst bi; lia).
-    apply (dq_text_roundtrip bi (N.to_nat w0) c r Hbi Hc s Hs H13 Hsn (or_intror (Hns eq_refl)) _ [] O bi).
-    + intro E. congruence.
+    apply (dq_text_roundtrip true bi (N.to_nat w0) c r Hbi Hc (or_intror eq_refl) s Hs H13 _ [] O bi false).
+    + reflexivity.
     + left. reflexivity.
     + clear Hbi. subst bi w0. cbn [length]. lia.
   - (* multi-line layout: the quote stands on its own line after INDENT of the next level *)
     set (w1 := indent_w shrink ((level + 1) mod 65536)).
     rewrite !col_after_app, col_after_spaces, (col_after_nonl name) by exact Hname.
     cbn [col_after]. change (10 =? 10) with true. cbn iota.
-    cbn [app]. rewrite text_lines_dq. cbn [rev ypr_encode flat_map app]. rewrite <- app_assoc. cbn [app].
+    cbn [app]. rewrite text_lines_dq. cbn [rev ypr_encode flat_map app head_blank]. rewrite <- app_assoc. cbn [app].
     unfold lex_qstring, spaces.
     match goal with |- lex_f _ _ ?b _ _ _ _ = _ => set (bi := b) end.
     assert (Hbi : N.of_nat (N.to_nat w1) + 1 = bi) by (subst bi; lia).
-    apply (dq_text_roundtrip bi (N.to_nat w1) c r (N.eq_le_incl _ _ Hbi) Hc s Hs H13 Hsn (or_introl Hbi) _ [] O bi).
-    + intro E. congruence.
+    apply (dq_text_roundtrip false bi (N.to_nat w1) c r (N.eq_le_incl _ _ Hbi) Hc (or_introl Hbi) s Hs H13 _ [] O bi false).
+    + reflexivity.
     + left. reflexivity.
     + clear Hbi. subst bi w1. cbn [length]. lia.
 Qed.
@@ -557,19 +608,17 @@ Proof.
 Qed.
 
 Theorem text_roundtrip shrink level name s sl sq c r :
-  no_byte 10 name = true -> ylexable s = true -> is_term c = true -> rt_hyp sl sq s = true ->
+  no_byte 10 name = true -> ylexable s = true -> is_term c = true -> rt_hyp sq s = true ->
   print_then_lex shrink level name s sl sq (c :: r) = Ok (s, c :: r).
 Proof.
   intros Hname Hs Hc Hh. unfold rt_hyp in Hh. destruct sq.
   - apply text_roundtrip_sq; assumption.
-  - apply andb_true_iff in Hh. destruct Hh as [Hh H3]. apply andb_true_iff in Hh. destruct Hh as [H1 H2].
-    apply text_roundtrip_dq; try assumption.
-    intros ->. cbn [negb orb] in H3. exact H3.
+  - apply text_roundtrip_dq; assumption.
 Qed.
 
 (* printing what was read back from a print reproduces the print *)
 Theorem print_fixpoint shrink level name s sl sq c r s' rest :
-  no_byte 10 name = true -> ylexable s = true -> is_term c = true -> rt_hyp sl sq s = true ->
+  no_byte 10 name = true -> ylexable s = true -> is_term c = true -> rt_hyp sq s = true ->
   print_then_lex shrink level name s sl sq (c :: r) = Ok (s', rest) ->
   ypr_text shrink level name s' sl sq = ypr_text shrink level name s sl sq.
 Proof.
@@ -695,37 +744,43 @@ Definition nm_description : bytes := [100;101;115;99;114;105;112;116;105;111;110
 Definition nm_units : bytes := [117;110;105;116;115].
 Definition nm_default : bytes := [100;101;102;97;117;108;116].
 
-(* description [dq]a NL b[dq] with a blank before the newline: the blank is lost *)
-Lemma trailing_ws_witness :
+(* the former defects (blank before a newline; single-line layout, blanks after a newline): what is
+   printed now, and that it is read back. 92 110 = backslash n. *)
+Lemma trailing_ws_fixed :
   let s := [97; 32; 10; 32; 98] in
-  ylexable s = true /\ no_byte 13 s = true /\ no_pair 10 32 s = false /\ no_pair 32 10 s = false /\
-  print_then_lex false 1 nm_description s false false [59] = Ok ([97; 10; 32; 98], [59]).
+  ypr_text_parts false 1 nm_description s false false =
+    ([32; 32] ++ nm_description ++ [10; 32; 32; 32; 32], [34; 97; 32; 92; 110; 32; 98; 34]) /\
+  print_then_lex false 1 nm_description s false false [59] = Ok (s, [59]) /\
+  ypr_text_parts false 1 nm_description [97; 32; 32; 10; 10; 32; 10; 98; 32] false false =
+    ([32; 32] ++ nm_description ++ [10; 32; 32; 32; 32],
+     [34; 97; 32; 32; 92; 110; 10; 32; 32; 32; 32; 32; 32; 92; 110; 98; 32; 34]).
 Proof. vm_compute. repeat split. Qed.
 
-(* ... and printing what was read back differs from the first print *)
-Lemma fixpoint_witness :
-  let s := [97; 32; 10; 32; 98] in
-  exists s', print_then_lex false 1 nm_description s false false [59] = Ok (s', [59]) /\
-             ypr_text false 1 nm_description s' false false <> ypr_text false 1 nm_description s false false.
-Proof. exists [97; 10; 32; 98]. split; [vm_compute; reflexivity|]. vm_compute. discriminate. Qed.
+Lemma singleline_indent_fixed :
+  let s := [97; 10; 32; 32; 98; 10; 99] in
+  ypr_text_parts false 1 nm_units s true false =
+    ([32; 32] ++ nm_units ++ [32], [34; 97; 92; 110; 32; 32; 98; 10; 32; 32; 32; 99; 34]) /\
+  print_then_lex false 1 nm_units s true false [59] = Ok (s, [59]) /\
+  ypr_text_parts false 1 nm_description s false false =
+    ([32; 32] ++ nm_description ++ [10; 32; 32; 32; 32],
+     [34; 97; 10; 32; 32; 32; 32; 32; 32; 32; 98; 10; 32; 32; 32; 32; 32; 99; 34]) /\
+  print_then_lex false 1 nm_description s false false [59] = Ok (s, [59]).
+Proof. vm_compute. repeat split. Qed.
 
 (* carriage return: dropped before a newline, an error elsewhere *)
 Lemma cr_witness :
-  ylexable [97; 13; 10; 98] = true /\ rt_hyp false false [97; 13; 10; 98] = false /\
-  no_pair 32 10 [97; 13; 10; 98] = true /\
+  ylexable [97; 13; 10; 98] = true /\ rt_hyp false [97; 13; 10; 98] = false /\
   print_then_lex false 1 nm_description [97; 13; 10; 98] false false [59] = Ok ([97; 10; 98], [59]) /\
   ylexable [97; 13; 98] = true /\
   print_then_lex false 1 nm_description [97; 13; 98] false false [59] = Err E_CR.
 Proof. vm_compute. repeat split. Qed.
 
-(* single-line layout (units, must, when, default, presence, ...): leading blanks of a continuation
-   line are eaten as indentation, although neither the RFC nor the multi-line layout loses them *)
-Lemma singleline_indent_witness :
-  let s := [97; 10; 32; 32; 98] in
-  ylexable s = true /\ no_byte 13 s = true /\ no_pair 32 10 s = true /\ no_pair 10 32 s = false /\
-  print_then_lex false 1 nm_units s true false [59] = Ok ([97; 10; 98], [59]) /\
-  print_then_lex false 1 nm_description s false false [59] = Ok (s, [59]).
-Proof. vm_compute. repeat split. Qed.
+(* ... and then the second print differs from the first *)
+Lemma fixpoint_cr_witness :
+  let s := [97; 13; 10; 98] in
+  exists s', print_then_lex false 1 nm_description s false false [59] = Ok (s', [59]) /\
+             ypr_text false 1 nm_description s' false false <> ypr_text false 1 nm_description s false false.
+Proof. exists [97; 10; 98]. split; [vm_compute; reflexivity|]. vm_compute. discriminate. Qed.
 
 (* single-quoted text with a newline: the blanks printed in front of the continuation line become content *)
 Lemma squote_newline_witness :
@@ -749,14 +804,15 @@ Lemma yangutf8char_spec :
   N_all_below 1114112 (fun c => Bool.eqb (is_yangutf8char c) (is_yang_char c && negb (in_rng 262144 327679 c))) = true.
 Proof. vm_cast_no_check (eq_refl true). Qed.
 
-(* non-vacuity: a text with both quote kinds, a backslash, tabs, an empty line, blanks at the start of a
-   line and at the end of the last line, 2-, 3- and 4-byte characters *)
+(* non-vacuity: a text with both quote kinds, a backslash, tabs, empty lines, blanks at the start of a
+   line, before a newline and at the end of the last line, 2-, 3- and 4-byte characters *)
 Definition example_text : bytes :=
-  [73; 116; 39; 115; 32; 34; 113; 34; 32; 92; 9; 120; 9; 10; 10; 32; 32; 121; 32; 195; 169; 226; 130; 172; 240; 159; 152; 128; 32; 32].
+  [73; 116; 39; 115; 32; 34; 113; 34; 32; 92; 9; 120; 9; 10; 10; 32; 32; 121; 32; 10; 32; 122; 32; 32; 10; 10; 32; 195; 169; 226; 130; 172; 240; 159; 152; 128; 32; 32].
 Lemma example_ok :
-  ylexable example_text = true /\ rt_hyp false false example_text = true /\ rt_hyp true false example_text = false /\
+  ylexable example_text = true /\ rt_hyp false example_text = true /\
   print_then_lex false 3 nm_description example_text false false [59] = Ok (example_text, [59]) /\
   print_then_lex true 0 nm_description example_text false false [32; 123] = Ok (example_text, [123]) /\
+  print_then_lex false 3 nm_units example_text true false [59] = Ok (example_text, [59]) /\
   (let s := [73; 116; 39; 115; 32; 39; 39; 34; 92; 9; 13] in
-   rt_hyp true true s = true /\ print_then_lex false 2 nm_default s true true [59] = Ok (s, [59])).
+   rt_hyp true s = true /\ print_then_lex false 2 nm_default s true true [59] = Ok (s, [59])).
 Proof. vm_compute. repeat split. Qed.
